@@ -537,8 +537,22 @@ impl Axecutor {
         data: Vec<u8>,
         name: Option<String>,
     ) -> Result<(), AxError> {
+        // The new area must end within the 64-bit address space
+        let len = data.len() as u64;
+        if len > 0 && start.checked_add(len - 1).is_none() {
+            return Err(AxError::from(format!(
+                "cannot create memory area {} with start={:#x}, length={:#x}: it does not fit into the address space",
+                name.unwrap_or_else(|| "<unnamed>".to_string()),
+                start,
+                len
+            )));
+        }
+
         for area in &self.state.memory {
-            if start >= area.start && start < area.start + area.length {
+            // Overlap: the new start lies in the existing area, or the existing start lies in the new area
+            if (start >= area.start && start - area.start < area.length)
+                || (area.start >= start && area.start - start < len)
+            {
                 let overlap_name = area
                     .name
                     .to_owned()
@@ -557,7 +571,6 @@ impl Axecutor {
             None => "".to_string(),
         };
 
-        let len = data.len() as u64;
         self.state.memory.push(MemoryArea {
             start,
             length: len,
